@@ -397,7 +397,7 @@ def gen(rng, tier):
     for _ in range(70 * k):
         d = _gen_screen(rng, nmax=6, min_samples=rng.choice([1, 2, 2, 3, 3, 4]))
         mode = rng.choice(["random", "random", "random", "random", "identical", "additive"])
-        d.update(kind="corr", nthetas=rng.choice([0, 1, 1, 2, 2, 3]), mode=mode,
+        d.update(kind="corr", nthetas=rng.choice([0, 1, 1, 2, 2, 3]), mode=mode, scale_exp=rng.choice([0, 0, 0, 0, 20, 30, 40]),
                  A=[[rng.randint(0, 8) for _ in range(4)] for _ in range(3)],
                  B=[[rng.randint(0, 8) for _ in range(9)] for _ in range(4)], remap=_gen_remap(rng))
         yield d
@@ -939,7 +939,12 @@ def _run_space(desc):
 
 
 def _stub_value(desc, th, sid, ids):
-    """the stub thetas' prediction for one experiment: an exact dyadic number"""
+    """the stub thetas' prediction for one experiment: an exact dyadic number (scaled by 2^-scale_exp: samples that are
+    nearly indistinguishable still have a well-defined similarity - correlation does not depend on the scale)"""
+    return _stub_value0(desc, th, sid, ids) / (1 << desc.get("scale_exp", 0))
+
+
+def _stub_value0(desc, th, sid, ids):
     A, B, mode = desc["A"], desc["B"], desc["mode"]
     if mode == "identical":
         return Fraction(A[th % 3][0] + sum((c + 1) * B[0][(t + 1) % 9] for c, t in enumerate(ids)), 8)
@@ -969,6 +974,7 @@ def _run_corr(desc):
     table = [[[s, list(ids)], [frac(float(_stub_value(desc, t, s, list(ids)))) for t in range(nth)]]
              for s in [r[1] for r in smap] for ids in itertools.product(allids, repeat=a)]
     feats = ["corr", "arity:%d" % a, "nthetas:%d" % nth, "samples:%d" % len(sids), "mode:" + desc["mode"]] \
+        + (["tiny-scale:2^-%d" % desc["scale_exp"]] if desc.get("scale_exp") else []) \
         + (["supplied-mapping"] if desc.get("remap") else [])
     if sum(1 for r in mapping if r[1] == -1) >= 2:
         feats.append("several-control-rows")
